@@ -347,11 +347,21 @@ def oracle_timetable(inp, starts, tol=Fraction(0)):
 DYADIC = [Fraction(1), Fraction(2), Fraction(3), Fraction(1, 2), Fraction(5, 4), Fraction(10), Fraction(7, 8)]
 TINY = Fraction(1, 2 ** 20)
 HUGE = Fraction(2 ** 20)
+# nanosecond-scale durations (2^-28 .. 2^-34 ~ 4e-9 .. 6e-11): correct non-zero start times lie below any
+# "rounding error" threshold such as 1e-8 (the code itself uses 1e-8 in Instruction.__init__)
+NANO = [Fraction(1, 2 ** 28), Fraction(3, 2 ** 30), Fraction(1, 2 ** 30), Fraction(5, 2 ** 33), Fraction(1, 2 ** 32),
+        Fraction(3, 2 ** 34), Fraction(1, 2 ** 34)]
+ORDINARY = [Fraction(1), Fraction(2), Fraction(1, 2), Fraction(5, 4), Fraction(4)]
+BIG = [Fraction(2 ** 8), Fraction(2 ** 8 + 1), Fraction(3 * 2 ** 6)]
+# every style keeps the binary exponents of one list within ~43 bits (2^-34 .. 2^9), so that all sums of at most
+# 14 durations are exactly representable in a double and the model must agree bit for bit
+STYLES = ["equal", "two", "extreme", "any", "any", "nano", "nano", "nano-equal", "nano-mixed", "nano-mixed", "nano-big"]
 
 
 def with_durations(rng, specs, style):
     out = []
     eq = rng.choice(DYADIC)
+    eqn = rng.choice(NANO)
     for s in specs:
         s = dict(s)
         if style == "equal":
@@ -360,6 +370,14 @@ def with_durations(rng, specs, style):
             dd = rng.choice([Fraction(1), Fraction(4)])
         elif style == "extreme":
             dd = rng.choice([TINY, HUGE, Fraction(1), TINY * 3, HUGE + 1])
+        elif style == "nano":
+            dd = rng.choice(NANO)
+        elif style == "nano-equal":
+            dd = eqn
+        elif style == "nano-mixed":
+            dd = rng.choice(NANO + NANO + ORDINARY)
+        elif style == "nano-big":
+            dd = rng.choice(NANO + ORDINARY + BIG)
         else:
             dd = Fraction(rng.randint(1, 64), rng.choice([1, 2, 4, 8, 16]))
         s["dur"] = [dd.numerator, dd.denominator]
@@ -378,7 +396,7 @@ def gen_input(rng, nmax, N=None, mode="pulse", kinds=None):
     N = N or rng.choice([2, 3, 3, 4, 5])
     n = rng.randint(1, nmax)
     specs = [rand_gate(rng, N, kinds) for _ in range(n)]
-    specs = with_durations(rng, specs, rng.choice(["equal", "two", "extreme", "any", "any"]))
+    specs = with_durations(rng, specs, rng.choice(STYLES))
     return dict(instrs=specs, method=rng.choice(["ASAP", "ALAP"]), perm=rng.random() < 0.7,
                 random=rng.random() < 0.4, shuf_seed=rng.randrange(10 ** 6), mode=mode)
 
@@ -393,12 +411,23 @@ SMALL_ALPHABET = [
 ]
 
 
-def exhaustive_inputs(maxlen):
-    syms = [dict(g, dur=[d, 1]) for g in SMALL_ALPHABET for d in (1, 4)]
+DUR_PAIRS = {"1,4": (Fraction(1), Fraction(4)),
+             "nano": (Fraction(1, 2 ** 30), Fraction(1, 2 ** 28)),          # ~9.3e-10, ~3.7e-9
+             "nano,1": (Fraction(3, 2 ** 31), Fraction(1))}                # tiny next to ordinary
+
+
+def exhaustive_inputs(maxlen, durs="1,4"):
+    syms = [dict(g, dur=[d.numerator, d.denominator]) for g in SMALL_ALPHABET for d in DUR_PAIRS[durs]]
     for L in range(1, maxlen + 1):
         for combo in itertools.product(range(len(syms)), repeat=L):
             for method in ("ASAP", "ALAP"):
                 yield dict(instrs=[syms[i] for i in combo], method=method, perm=True, random=False, shuf_seed=0, mode="pulse")
+
+
+def rel_tol(inp):
+    """tolerance for start times that went through inexact float sums: relative to the total duration (an absolute
+    tolerance would hide errors on nanosecond-scale schedules)"""
+    return Fraction(1, 10 ** 10) * sum([eff_dur(s) for s in inp["instrs"]], Fraction(0))
 
 
 def key_of(inp):
@@ -450,6 +479,11 @@ def correspond(ctx):
     ex = list(exhaustive_inputs(ctx.n(2, 4)))
     if not ctx.thorough:
         ex += rng.sample(list(exhaustive_inputs(3))[len(ex):], 500)
+    for durs in ("nano", "nano,1"):      # the same sweep with nanosecond-scale durations
+        part = list(exhaustive_inputs(ctx.n(2, 3), durs))
+        if not ctx.thorough:
+            part += rng.sample(list(exhaustive_inputs(3, durs))[len(part):], 300)
+        ex += part
     for inp in ex:
         exact.append(("exhaustive-small-alphabet", inp))
     # rejected / degenerate
@@ -481,8 +515,16 @@ def correspond(ctx):
         inp = gen_input(rng, 14, mode="pulse")
         continuous = rng.random() < 0.5
         if continuous:
+            scale = rng.choice(["mixed", "mixed", "ordinary", "nano", "nano", "huge"])
             for s in inp["instrs"]:
-                x = rng.choice([rng.uniform(0.01, 10.0), rng.uniform(1e-7, 1e-6), rng.uniform(1e5, 1e6)])
+                if scale == "mixed":
+                    x = rng.choice([rng.uniform(0.01, 10.0), rng.uniform(1e-7, 1e-6), rng.uniform(1e5, 1e6)])
+                elif scale == "ordinary":
+                    x = rng.uniform(0.01, 10.0)
+                elif scale == "nano":
+                    x = rng.choice([rng.uniform(5e-11, 5e-9), rng.uniform(1e-9, 4e-9)])
+                else:
+                    x = rng.uniform(1e5, 1e6)
                 fr = Fraction(x)
                 s["dur"] = [fr.numerator, fr.denominator]
                 s.pop("how", None)
@@ -495,8 +537,7 @@ def correspond(ctx):
         if isinstance(res, str):
             corr.oracle_fail(inp, res, "start times", "scheduler raised on a valid instruction list")
             continue
-        tol = Fraction(1, 10 ** 9) * max([Fraction(1)] + [eff_dur(s) for s in inp["instrs"]]) * 16
-        bad = oracle_timetable(inp, res, tol)
+        bad = oracle_timetable(inp, res, Fraction(0) if not continuous else rel_tol(inp))
         if bad:
             corr.oracle_fail(inp, dict(start_times=[float(x) for x in res], detail=bad[1]), "a valid timetable", bad[0])
     corr.extra["oracle_only_cases"] = n_long
@@ -524,12 +565,12 @@ def replay(ctx, rec):
         return True
     if inp.get("mode", "pulse") != "pulse":
         return False
-    return oracle_timetable(inp, res, Fraction(1, 10 ** 9)) is not None
+    return oracle_timetable(inp, res, rel_tol(inp)) is not None
 
 
 def search(ctx, broken):
     out = []
-    cands = load_corpus("C11") + list(exhaustive_inputs(3))
+    cands = load_corpus("C11") + list(exhaustive_inputs(3)) + list(exhaustive_inputs(2, "nano")) + list(exhaustive_inputs(2, "nano,1"))
     rng = ctx.rng
     cands += [gen_input(rng, 10, mode="pulse") for _ in range(2000)]
     for inp in cands:
@@ -538,7 +579,7 @@ def search(ctx, broken):
             if any(spec_qubits(s) for s in inp["instrs"]):
                 out.append(dict(input=inp, observed=res, expected="start times", what="scheduler raised on a valid instruction list"))
             continue
-        bad = oracle_timetable(inp, res, Fraction(1, 10 ** 9))
+        bad = oracle_timetable(inp, res, rel_tol(inp))
         if bad:
             out.append(dict(input=inp, observed=dict(start_times=show(res), detail=bad[1]), expected="a valid timetable", what=bad[0]))
         if len(out) >= 3:
